@@ -100,6 +100,8 @@ fn main() {
             Err(_) => json!("panic"),
         };
         writeln!(out, "{}", json!({"id": id, "out": outv})).unwrap();
+        // flushed per case: when a later case aborts or hangs the process, the answers so far are not lost
+        out.flush().unwrap();
     }
     out.flush().unwrap();
 }
